@@ -336,7 +336,9 @@ def run_case(case):
     fam = case["family"]
     n = int(rng.choice([1, 2, 3, 5, 20, 100, 500, 2000], p=[.05, .1, .1, .15, .25, .2, .1, .05]))
     if fam == "wmom":
-        x = rng.normal(size=n) * 10.0 ** rng.integers(-3, 4) + rng.choice([0, 0, 100.0, -1e4])
+        # offsets far larger than the scatter (dates, timestamps, mosaic pixel coordinates): one-pass moment formulas lose
+        # the deviation there while the definition does not
+        x = rng.normal(size=n) * 10.0 ** rng.integers(-3, 4) + rng.choice([0, 0, 100.0, -1e4, 58849.0, 2458849.5, 1.6e9, -3.2e7])
         if rng.random() < .1:
             x = x.astype("f4")
         if rng.random() < .1:
@@ -350,6 +352,8 @@ def run_case(case):
     elif fam == "wmom-nd":
         d = int(rng.integers(1, 6))
         x = rng.normal(size=(n, d)) * 10.0 ** rng.integers(-2, 3)
+        if rng.random() < .3:
+            x[:, int(rng.integers(0, d))] += float(rng.choice([58849.0, 2458849.5, 1.6e9]))
         w = _weights(rng, n) if rng.random() < .5 else np.abs(rng.normal(size=(n, d))) + 0.01
         kw = {"calcerr": bool(rng.integers(0, 2)), "sdev": bool(rng.integers(0, 2))}
         r = rng.random()
